@@ -65,12 +65,23 @@ static uint64_t extend(int kind, int w, uint64_t lanes)
     return lanes;
 }
 
+/* What the target octets held before a store is no concern of the model; the harness varies it: mode 0 the canary, 1 the same
+ * value with its top bit flipped (for floats: the other sign, e.g. -0.0 over +0.0), 2 the value itself, 3 zero - each put
+ * there by a previous store. */
+static void prior(int t, int order, int w, unsigned char *at, int mode, uint64_t v)
+{
+    if (mode == 1) (void)TAB[t].set[order](at, v ^ ((uint64_t)1 << (w - 1)));
+    else if (mode == 2) (void)TAB[t].set[order](at, v);
+    else if (mode == 3) (void)TAB[t].set[order](at, 0);
+}
+
 /* one value through set + ref at alignment off, checked against the lane map given by the spec */
 static int check_one(int t, int order, int kind, int w, const long long *lane, int off, uint64_t v)
 {
     int nb = w / 8, bad = 0;
     unsigned char *blk = xblock(24);
     memset(blk, 197, 24);
+    prior(t, order, w, blk + off, (int)((v ^ (v >> 9) ^ (uint64_t)off) & 3), v);
     void *ret = TAB[t].set[order](blk + off, v);
     if ((unsigned char *)ret != blk + off + nb) bad = 1;
     for (int i = 0; i < 24; i++) {
@@ -94,6 +105,7 @@ void adapter_exec(Ev *ev)
         int t = find((int)ev->a[0], (int)ev->a[1]), order = (int)ev->a[2], off = (int)ev->a[3];
         unsigned char *blk = xblock(24);
         memset(blk, 197, 24);
+        prior(t, order, (int)ev->a[1], blk + off, harness_flavour & 3, v8(ev->a + 4));
         void *ret = TAB[t].set[order](blk + off, v8(ev->a + 4));
         obs(ev, (long long)((unsigned char *)ret - blk));
         for (int i = 0; i < 24; i++) obs(ev, blk[i]);
